@@ -83,7 +83,10 @@ cnt=collections.Counter(a[2][-1][-1] for a in never)
 print(cnt.most_common(25))
 print('---- quick set coverage')
 full=['AVX512VL','AVX512BW','AVX512DQ','AVX512CD','AVX512VPOPCNTDQ','AVX512BITALG','AVX512VBMI','AVX512VBMI2','GFNI','LZCNT','BMI2']
-quick=[('avx512f',['AVX512F'],'GCC',201103),('avx512vl',['AVX512VL'],'GCC',201103),('none',[],'GCC',201103),('x86scalar',['POPCNT','LZCNT','BMI2'],'GCC',201103),('sse2',['SSE2'],'GCC',201103),('sse42',['SSE4_2'],'GCC',201103),('avx2',['AVX2','FMA','LZCNT','BMI2'],'GCC',201103),('avx512legacy',['AVX512VL','AVX512BW','AVX512DQ','AVX512CD'],'GCC',201103),('avx512full',full,'GCC',201103),('avx512full-clang20',full,'CLANG',202002)]
+import sys as _sys, os as _os
+_sys.path.insert(0, _os.path.join(_os.path.dirname(_os.path.abspath(__file__)), '..', 'lib'))
+from avel import configs as _cfgs
+quick=[(c.name, c.macros, 'CLANG' if c.cxx == 'clang++' else 'GCC', {'c++11': 201103, 'c++14': 201402, 'c++17': 201703, 'c++20': 202002}[c.std]) for c in _cfgs.quick_configs()]
 cov=set()
 for n,m,comp,cpp in quick:
     d=set('AVEL_'+x for x in close(m))|{'AVEL_'+comp}
